@@ -161,7 +161,7 @@ pub enum Req {
     LookupVar(u64, u32),
 }
 
-pub const STRAT_NAMES: [&str; 4] = ["SSimple", "SBasic", "SAppend", "SAppendRev"];
+pub const STRAT_NAMES: [&str; 6] = ["SSimple", "SBasic", "SAppend", "SAppendRev", "SGAppend", "SGAppendRev"];
 
 pub fn ty_code(size: u64, align: u64) -> u64 {
     size * 32 + align
